@@ -89,6 +89,14 @@ CHECKS["C13"] = dict(
          "tests and enumerations are compared, on every DAG with <=4 nodes and every (X,Y,Z among non-descendants), with the path-based criterion "
          "evaluated by the d-separation oracle on the graph with X's outgoing edges removed.",
     note="Bounds: <=4 nodes, do-sets of size <=2, positive entries, string node names; one recorded known finding (joint interventions).", ref="5/C13")
+CHECKS["C15"] = dict(
+    text="One (quick: also sampled two-) step exploration from every enumerated valid base state: BayesianNetwork over <=3 nodes with symbolic CPD "
+         "tables, every editing operation with valid and invalid arguments; after each step: no directed cycle, a rejected single operation left nodes/"
+         "edges/latents/CPD entries identical, after remove_node/do every remaining CPD has scope node+graph parents and every column sums to one FOR ALL "
+         "table values (identity of rational functions), copy/original isolation in every mutable dimension. DynamicBayesianNetwork, JunctionTree, "
+         "MarkovNetwork and DAG construction with concrete single operations.",
+    note="Bounds: bases <=3 nodes, histories of length <=2 (3 sampled in thorough). Unbounded histories only by the informal inductive argument.",
+    ref="5/C15")
 
 NOT_APPLICABLE = {
     "C19": "statistic, dof and p-value are produced inside pandas.groupby / numpy.bincount / scipy.stats.chi2_contingency / chi2.cdf "
